@@ -752,4 +752,633 @@ theorem fromFields_rel (mk : Marked) (K : Kind) (g : List Fld) (hO : ∀ f ∈ g
     simp only [typedFields_catchall, List.map_nil, List.nil_append]
     exact hsolidX _ _ hrel.xvals
 
+/-! ### Part 5: all paragraphs, the merge and the fold -/
+
+theorem classify_mapF (mk : Marked) (g : List Fld) : classify (g.map (mapF mk)) = classify g := by
+  unfold classify
+  simp only [List.map_map]
+  rfl
+
+theorem mapExcept_rel (mk : Marked) (gs : List (List Fld)) (hO : ∀ g ∈ gs, ∀ f ∈ g, OutF mk f ∧ rstripLines f.lines = f.lines) :
+    ∃ psA psB, Model.Copyright.mapExcept (fun g => fromFields (classify g) g) gs = .ok psA ∧
+      Model.Copyright.mapExcept (fun g => fromFields (classify g) g) (mapOut mk gs) = .ok psB ∧ All2 PRel psA psB := by
+  induction gs with
+  | nil => exact ⟨[], [], rfl, rfl, All2.nil⟩
+  | cons g rest ih =>
+    obtain ⟨pA, pB, h1, h2, hr⟩ := fromFields_rel mk (classify g) g (hO g (by simp))
+    obtain ⟨psA, psB, h3, h4, hrs⟩ := ih (fun g' hg' => hO g' (by simp [hg']))
+    refine ⟨pA :: psA, pB :: psB, by simp [Model.Copyright.mapExcept, h1, h3], ?_, All2.cons hr hrs⟩
+    simp only [mapOut, List.map_cons, Model.Copyright.mapExcept, classify_mapF, h2]
+    simp only [mapOut] at h4
+    rw [h4]
+
+theorem groupByKind_rel (psA psB : List Para) (h : All2 PRel psA psB) :
+    All2 (All2 PRel) (groupByKind psA) (groupByKind psB) := by
+  induction h with
+  | nil => exact All2.nil
+  | @cons a b as0 bs0 hab hrest ih =>
+    rw [show groupByKind (a :: as0) = (match groupByKind as0 with
+      | (q :: g) :: rest => if q.kind = a.kind then (a :: q :: g) :: rest else [a] :: (q :: g) :: rest
+      | _ => [[a]]) from rfl,
+      show groupByKind (b :: bs0) = (match groupByKind bs0 with
+      | (q :: g) :: rest => if q.kind = b.kind then (b :: q :: g) :: rest else [b] :: (q :: g) :: rest
+      | _ => [[b]]) from rfl]
+    generalize groupByKind as0 = GA at ih
+    generalize groupByKind bs0 = GB at ih
+    cases ih with
+    | nil => exact All2.cons (All2.cons hab All2.nil) All2.nil
+    | @cons gA gB restA restB hg hr =>
+      cases hg with
+      | nil => exact All2.cons (All2.cons hab All2.nil) All2.nil
+      | @cons q q' g g' hq hgg =>
+        simp only
+        have hk : (q.kind = a.kind) = (q'.kind = b.kind) := by rw [hq.kind, hab.kind]
+        by_cases hc : q.kind = a.kind
+        · have hc' : q'.kind = b.kind := by rw [← hk]; exact hc
+          simp only [hc, hc', if_true]
+          exact All2.cons (All2.cons hab (All2.cons hq hgg)) hr
+        · have hc' : ¬ q'.kind = b.kind := by rw [← hk]; exact hc
+          simp only [hc, hc', if_false]
+          exact All2.cons (All2.cons hab All2.nil) (All2.cons (All2.cons hq hgg) hr)
+
+theorem dvals_rel (gA gB : List Para) (h : All2 PRel gA gB) :
+    All2 DVR (gA.flatMap fun p => (toDict p).map (·.2)) (gB.flatMap fun p => (toDict p).map (·.2)) := by
+  induction h with
+  | nil => exact All2.nil
+  | cons hab _ ih =>
+    simp only [List.flatMap_cons]
+    exact All2.append (All2.map_both hab.dict _ _ (fun a b h => h.2)) ih
+
+theorem any_empty_rel (a b : List DV) (h : All2 DVR a b) :
+    (a.any fun v => v = XV.emptyList) = (b.any fun v => v = XV.emptyList) := by
+  induction h with
+  | nil => rfl
+  | @cons x y _ _ hxy _ ih =>
+    simp only [List.any_cons, ih]
+    congr 1
+    cases x <;> cases y <;> simp_all [DVR]
+
+theorem values_rel (a b : List DV) (h : All2 DVR a b) :
+    All2 (fun x y => words x = words y) (a.filterMap dvStr) (b.filterMap dvStr) := by
+  induction h with
+  | nil => exact All2.nil
+  | @cons x y _ _ hxy _ ih =>
+    cases x with
+    | s u =>
+      cases y with
+      | s w => simp only [List.filterMap_cons, dvStr]; exact All2.cons hxy ih
+      | emptyList => exact absurd hxy (by simp [DVR])
+    | emptyList =>
+      cases y with
+      | s w => exact absurd hxy (by simp [DVR])
+      | emptyList => simp only [List.filterMap_cons, dvStr]; exact ih
+
+theorem flatMap_words_rel (a b : List Str) (h : All2 (fun x y => words x = words y) a b) :
+    a.flatMap words = b.flatMap words := by
+  induction h with
+  | nil => rfl
+  | cons hxy _ ih => simp only [List.flatMap_cons, hxy, ih]
+
+theorem lines_len_rel (gA gB : List Para) (h : All2 PRel gA gB) :
+    (gA.flatMap fun p => p.lines.map (·.2)).length = (gB.flatMap fun p => p.lines.map (·.2)).length := by
+  induction h with
+  | nil => rfl
+  | cons hab _ ih =>
+    simp only [List.flatMap_cons, List.length_append, List.length_map, ih]
+    have := congrArg List.length hab.lkeys
+    simpa using this
+
+/-- the text of a merged run whose first value starts with a character that is not white space -/
+theorem merged_text_solid (x : Str) (vs : List Str) (hne : x ≠ []) (hh : headP isSpace x = false) :
+    fromFormattedLines (x :: vs) ≠ [] ∧ headP isSpace (fromFormattedLines (x :: vs)) = false := by
+  cases x with
+  | nil => exact absurd rfl hne
+  | cons c m =>
+    have hc : isSpace c = false := by simpa [headP] using hh
+    obtain ⟨h1, h2⟩ := strip_head_solid (c :: m) c m rfl hc
+    simp only [fromFormattedLines]
+    rw [Props.C13F.headP_joinNl _ _ _ h1]
+    exact ⟨Props.C09.joinNl_ne_nil' _ _ h1, h2⟩
+
+open Props.C11W in
+theorem mergeRun_rel (gA gB : List Para) (h : All2 PRel gA gB) (hcat : ∀ p ∈ gA, p.kind = .catchall) (mA : Para)
+    (hm : mergeRun gA = .ok mA) : ∃ mB, mergeRun gB = .ok mB ∧ PRel mA mB := by
+  have hdv := dvals_rel gA gB h
+  have hany := any_empty_rel _ _ hdv
+  have hvals := values_rel _ _ hdv
+  have hlen := lines_len_rel gA gB h
+  -- every value of a catch-all paragraph is solid, in both runs
+  have hsolid : (∀ v ∈ (gA.flatMap fun p => (toDict p).map (·.2)), SolidDV v) ∧
+      (∀ v ∈ (gB.flatMap fun p => (toDict p).map (·.2)), SolidDV v) := by
+    clear hm hdv hany hvals hlen
+    induction h with
+    | nil => exact ⟨by simp, by simp⟩
+    | @cons a b as0 bs0 hab _ ih =>
+      obtain ⟨i1, i2⟩ := ih (fun p hp => hcat p (by simp [hp]))
+      obtain ⟨s1, s2⟩ := hab.solid (hcat a (by simp))
+      constructor
+      · intro v hv
+        simp only [List.flatMap_cons, List.mem_append, List.mem_map] at hv
+        rcases hv with ⟨kv, hkv, rfl⟩ | hv
+        · exact s1 kv hkv
+        · exact i1 v hv
+      · intro v hv
+        simp only [List.flatMap_cons, List.mem_append, List.mem_map] at hv
+        rcases hv with ⟨kv, hkv, rfl⟩ | hv
+        · exact s2 kv hkv
+        · exact i2 v hv
+  unfold mergeRun at hm ⊢
+  simp only at hm ⊢
+  rw [← hany]
+  by_cases ha : ((gA.flatMap fun p => (toDict p).map (·.2)).any fun v => v = XV.emptyList) = true
+  · simp [ha] at hm
+  · simp only [ha, Bool.false_eq_true, if_false, Except.ok.injEq] at hm ⊢
+    refine ⟨_, rfl, ?_⟩
+    subst hm
+    generalize hVA : (gA.flatMap fun p => (toDict p).map (·.2)).filterMap dvStr = VA at *
+    generalize hVB : (gB.flatMap fun p => (toDict p).map (·.2)).filterMap dvStr = VB at *
+    generalize hNA : (gA.flatMap fun p => p.lines.map (·.2)) = NA at *
+    generalize hNB : (gB.flatMap fun p => p.lines.map (·.2)) = NB at *
+    have hVlen : VB.length = VA.length := All2.len hvals
+    have hwords := flatMap_words_rel VA VB hvals
+    -- the first value is solid
+    have hfirstA : ∀ x vs, VA = x :: vs → x ≠ [] ∧ headP isSpace x = false := by
+      intro x vs hx
+      have hm : x ∈ (gA.flatMap fun p => (toDict p).map (·.2)).filterMap dvStr := by rw [hVA, hx]; simp
+      obtain ⟨v, hv, hvx⟩ := List.mem_filterMap.mp hm
+      cases v with
+      | emptyList => simp [dvStr] at hvx
+      | s y =>
+        simp only [dvStr, Option.some.injEq] at hvx
+        subst hvx
+        exact hsolid.1 _ hv
+    have hfirstB : ∀ x vs, VB = x :: vs → x ≠ [] ∧ headP isSpace x = false := by
+      intro x vs hx
+      have hm : x ∈ (gB.flatMap fun p => (toDict p).map (·.2)).filterMap dvStr := by rw [hVB, hx]; simp
+      obtain ⟨v, hv, hvx⟩ := List.mem_filterMap.mp hm
+      cases v with
+      | emptyList => simp [dvStr] at hvx
+      | s y =>
+        simp only [dvStr, Option.some.injEq] at hvx
+        subst hvx
+        exact hsolid.2 _ hv
+    constructor
+    · rfl
+    · rw [toDict_simple _ _ (by simp), toDict_simple _ _ (by simp)]
+      simp only [List.map_cons, List.map_nil]
+      refine All2.cons ⟨rfl, ?_⟩ All2.nil
+      cases hA : VA with
+      | nil =>
+        have : VB = [] := by cases VB with | nil => rfl | cons _ _ => rw [hA] at hVlen; simp at hVlen
+        simp [this, conv, DVR]
+      | cons x vs =>
+        cases hB : VB with
+        | nil => rw [hA, hB] at hVlen; simp at hVlen
+        | cons y ws =>
+          obtain ⟨a1, a2⟩ := merged_text_solid x vs (hfirstA x vs hA).1 (hfirstA x vs hA).2
+          obtain ⟨b1, b2⟩ := merged_text_solid y ws (hfirstB y ws hB).1 (hfirstB y ws hB).2
+          have e1 : (fromFormattedLines (x :: vs)).isEmpty = false := by
+            cases hh : fromFormattedLines (x :: vs) with | nil => exact absurd hh a1 | cons _ _ => rfl
+          have e2 : (fromFormattedLines (y :: ws)).isEmpty = false := by
+            cases hh : fromFormattedLines (y :: ws) with | nil => exact absurd hh b1 | cons _ _ => rfl
+          simp only [List.isEmpty_cons, Bool.false_eq_true, if_false, conv, e1, e2, DVR,
+            Proofs.WordsConv.words_asFormattedText, Proofs.WordsConv.words_fromFormattedLines]
+          rw [← hA, ← hB]; exact hwords
+    · cases hA : NA with
+      | nil =>
+        have : NB = [] := by cases NB with | nil => rfl | cons _ _ => rw [hA] at hlen; simp at hlen
+        simp [this]
+      | cons n ns =>
+        cases hB : NB with
+        | nil => rw [hA, hB] at hlen; simp at hlen
+        | cons n' ns' => simp
+    · intro hk; cases hk
+    · intro hk; cases hk
+    · intro hk; cases hk
+    · intro _
+      rw [toDict_simple _ _ (by simp), toDict_simple _ _ (by simp)]
+      constructor
+      · intro kv hkv
+        simp only [List.map_cons, List.map_nil, List.mem_singleton] at hkv
+        subst hkv
+        cases hA : VA with
+        | nil => simp [conv, SolidDV]
+        | cons x vs =>
+          obtain ⟨a1, a2⟩ := merged_text_solid x vs (hfirstA x vs hA).1 (hfirstA x vs hA).2
+          have e1 : (fromFormattedLines (x :: vs)).isEmpty = false := by
+            cases hh : fromFormattedLines (x :: vs) with | nil => exact absurd hh a1 | cons _ _ => rfl
+          simp only [List.isEmpty_cons, Bool.false_eq_true, if_false, conv, e1, SolidDV]
+          exact aft_solid _ a1 a2
+      · intro kv hkv
+        simp only [List.map_cons, List.map_nil, List.mem_singleton] at hkv
+        subst hkv
+        cases hB : VB with
+        | nil => simp [conv, SolidDV]
+        | cons y ws =>
+          obtain ⟨b1, b2⟩ := merged_text_solid y ws (hfirstB y ws hB).1 (hfirstB y ws hB).2
+          have e2 : (fromFormattedLines (y :: ws)).isEmpty = false := by
+            cases hh : fromFormattedLines (y :: ws) with | nil => exact absurd hh b1 | cons _ _ => rfl
+          simp only [List.isEmpty_cons, Bool.false_eq_true, if_false, conv, e2, SolidDV]
+          exact aft_solid _ b1 b2
+
+theorem isAllUnknown_rel (pA pB : Para) (h : PRel pA pB) : isAllUnknown pA = isAllUnknown pB := by
+  unfold isAllUnknown
+  have := h.dict
+  generalize toDict pA = dA at this
+  generalize toDict pB = dB at this
+  induction this with
+  | nil => rfl
+  | cons hab _ ih => simp only [List.all_cons, hab.1, ih]
+
+theorem all_unknown_rel (gA gB : List Para) (h : All2 PRel gA gB) : gA.all isAllUnknown = gB.all isAllUnknown := by
+  induction h with
+  | nil => rfl
+  | cons hab _ ih => simp only [List.all_cons, isAllUnknown_rel _ _ hab, ih]
+
+open Props.C07 Props.C11W in
+theorem foldl_mstep_rel (gsA gsB : List (List Para)) (h : All2 (All2 PRel) gsA gsB) (outA outB : List Para)
+    (hout : All2 PRel outA outB) (hkind : ∀ g ∈ gsA, ∀ q ∈ g, ∀ q' ∈ g, q.kind = q'.kind)
+    (resA : List Para) (hA : gsA.foldl mstep (.ok outA) = .ok resA) :
+    ∃ resB, gsB.foldl mstep (.ok outB) = .ok resB ∧ All2 PRel resA resB := by
+  induction h generalizing outA outB with
+  | nil => simp at hA; subst hA; exact ⟨outB, rfl, hout⟩
+  | @cons gA gB restA restB hg _ ih =>
+    simp only [List.foldl_cons] at hA ⊢
+    have hrk := fun g' hg' => hkind g' (List.mem_cons_of_mem _ hg')
+    cases hg with
+    | nil =>
+      simp only [mstep] at hA ⊢
+      exact ih outA outB hout hrk hA
+    | @cons p p' ps ps' hp hps =>
+      have hall : All2 PRel (p :: ps) (p' :: ps') := All2.cons hp hps
+      have hlen : (p' :: ps').length = (p :: ps).length := All2.len hall
+      have hau := all_unknown_rel _ _ hall
+      simp only [mstep] at hA ⊢
+      have hcondeq : (p.kind ≠ .catchall || (p :: ps).length = 1 || !(p :: ps).all isAllUnknown) =
+          (p'.kind ≠ .catchall || (p' :: ps').length = 1 || !(p' :: ps').all isAllUnknown) := by
+        rw [hp.kind, hlen, hau]
+      by_cases hcond : (p.kind ≠ .catchall || (p :: ps).length = 1 || !(p :: ps).all isAllUnknown) = true
+      · rw [if_pos hcond] at hA
+        rw [if_pos (by rw [← hcondeq]; exact hcond)]
+        exact ih _ _ (All2.append hout hall) hrk hA
+      · rw [if_neg hcond] at hA
+        rw [if_neg (by rw [← hcondeq]; exact hcond)]
+        cases hm : mergeRun (p :: ps) with
+        | error e =>
+          rw [hm] at hA
+          simp only at hA
+          rw [foldl_mstep_error] at hA; cases hA
+        | ok mA =>
+          rw [hm] at hA
+          simp only at hA
+          have hpk : p.kind = .catchall := by
+            simp only [Bool.or_eq_true, decide_eq_true_eq, not_or] at hcond
+            have := hcond.1.1
+            simpa using this
+          have hcat : ∀ q ∈ p :: ps, q.kind = .catchall := fun q hq =>
+            (hkind (p :: ps) (by simp) q hq p (by simp)).trans hpk
+          obtain ⟨mB, hmB, hrel⟩ := mergeRun_rel _ _ hall hcat mA hm
+          rw [hmB]
+          simp only
+          exact ih _ _ (All2.append hout (All2.cons hrel All2.nil)) hrk hA
+
+open Props.C07 in
+theorem mergeUnknown_rel (psA psB : List Para) (h : All2 PRel psA psB) (resA : List Para) (hA : mergeUnknown psA = .ok resA) :
+    ∃ resB, mergeUnknown psB = .ok resB ∧ All2 PRel resA resB := by
+  rw [mergeUnknown_eq] at hA ⊢
+  exact foldl_mstep_rel _ _ (groupByKind_rel psA psB h) [] [] All2.nil (fun g hg => (groupByKind_props psA g hg).2) resA hA
+
+theorem dict_keys_rel (pA pB : Para) (h : PRel pA pB) : (toDict pA).map (·.1) = (toDict pB).map (·.1) := by
+  have := h.dict
+  generalize toDict pA = dA at this
+  generalize toDict pB = dB at this
+  induction this with
+  | nil => rfl
+  | cons hab _ ih => simp only [List.map_cons, hab.1, ih]
+
+def singleTruthy (d : List (Str × DV)) : Bool :=
+  match d with
+  | [(_, v)] => dvTruthy v
+  | _ => false
+
+open Props.C07 in
+theorem foldCond_eq (p1 p2 : Para) : foldCond p1 p2 =
+    (decide (p1.kind = .license) && licenseParaIsEmpty p1 && decide (p2.kind = .catchall) &&
+      decide ((toDict p2).map (·.1) = [unknownName]) && singleTruthy (toDict p2)) := by
+  unfold foldCond singleTruthy
+  cases toDict p2 with
+  | nil => rfl
+  | cons a as =>
+    cases as with
+    | nil => rfl
+    | cons _ _ => rfl
+
+open Props.C07 in
+theorem foldCond_rel (p1 p1' p2 p2' : Para) (h1 : PRel p1 p1') (h2 : PRel p2 p2') : foldCond p1 p2 = foldCond p1' p2' := by
+  rw [foldCond_eq, foldCond_eq]
+  rw [← h1.kind, ← h2.kind, ← dict_keys_rel p2 p2' h2]
+  by_cases hk1 : p1.kind = .license
+  · rw [h1.licEmpty hk1]
+    by_cases hk2 : p2.kind = .catchall
+    · -- the single value: truthy in both runs or in neither
+      have hd := h2.dict
+      obtain ⟨s1, s2⟩ := h2.solid hk2
+      have : singleTruthy (toDict p2) = singleTruthy (toDict p2') := by
+        generalize toDict p2 = dA at hd s1
+        generalize toDict p2' = dB at hd s2
+        unfold singleTruthy
+        cases hd with
+        | nil => rfl
+        | @cons a b as0 bs0 hab hrest =>
+          cases hrest with
+          | nil =>
+            obtain ⟨a1, a2⟩ := a
+            obtain ⟨b1, b2⟩ := b
+            have ha := s1 (a1, a2) (by simp)
+            have hb := s2 (b1, b2) (by simp)
+            cases a2 with
+            | s x =>
+              cases b2 with
+              | s y =>
+                simp only [SolidDV] at ha hb
+                have e1 : x.isEmpty = false := by cases hh : x with | nil => exact absurd hh ha.1 | cons _ _ => rfl
+                have e2 : y.isEmpty = false := by cases hh : y with | nil => exact absurd hh hb.1 | cons _ _ => rfl
+                simp [dvTruthy, e1, e2]
+              | emptyList => exact absurd hab.2 (by simp [DVR])
+            | emptyList =>
+              cases b2 with
+              | s y => exact absurd hab.2 (by simp [DVR])
+              | emptyList => rfl
+          | cons _ _ => rfl
+      rw [this]
+    · simp [hk2]
+  · simp [hk1]
+
+theorem lset_keys {α β} (l : List (Str × α)) (l' : List (Str × β)) (k : Str) (v : α) (v' : β)
+    (h : l.map (·.1) = l'.map (·.1)) : (lset l k v).map (·.1) = (lset l' k v').map (·.1) := by
+  induction l generalizing l' with
+  | nil =>
+    cases l' with
+    | nil => rfl
+    | cons _ _ => simp at h
+  | cons a as ih =>
+    cases l' with
+    | nil => simp at h
+    | cons b bs =>
+      obtain ⟨a1, a2⟩ := a
+      obtain ⟨b1, b2⟩ := b
+      simp only [List.map_cons, List.cons.injEq] at h
+      obtain ⟨hk, hr⟩ := h
+      subst hk
+      simp only [lset]
+      by_cases e : a1 = k
+      · simp [e, hr]
+      · simp [e, ih bs hr]
+
+open Props.C07 Props.C11W in
+theorem fold_rel (p1 p1' p2 p2' : Para) (h1 : PRel p1 p1') (h2 : PRel p2 p2') (hc : foldCond p1 p2 = true)
+    (text text' : Str) (rng rng' : Nat × Nat)
+    (hd : toDict p2 = [(unknownName, XV.s text)]) (hd' : toDict p2' = [(unknownName, XV.s text')]) :
+    PRel { setLicense p1 [] (some text) with lines := lset p1.lines "license".toList rng }
+         { setLicense p1' [] (some text') with lines := lset p1'.lines "license".toList rng' } := by
+  have hc' : foldCond p1' p2' = true := by rw [← foldCond_rel p1 p1' p2 p2' h1 h2]; exact hc
+  -- the shape of both first paragraphs and of the folded ones
+  have shape : ∀ (q q2 : Para) (tx : Str) (r : Nat × Nat), LicShape q → foldCond q q2 = true → toDict q2 = [(unknownName, XV.s tx)] →
+      ∃ c, (toDict ({ setLicense q [] (some tx) with lines := lset q.lines "license".toList r } : Para) =
+        [(licKey, XV.s (dumps (FV.license [] (some tx)))), (comKey, XV.s [])]) ∧ tx ≠ [] ∧
+        (setLicense q [] (some tx)).fields = [(licKey, FV.license [] (some tx)), (comKey, FV.formatted c)] := by
+    intro q q2 tx r hs hcq hdq
+    unfold foldCond at hcq
+    simp only [Bool.and_eq_true, decide_eq_true_eq] at hcq
+    obtain ⟨⟨⟨⟨hk, hempty⟩, _⟩, _⟩, htruthy⟩ := hcq
+    have htne : tx ≠ [] := by
+      rw [hdq] at htruthy
+      simp only [dvTruthy, Bool.not_eq_true', List.isEmpty_eq_false_iff] at htruthy
+      exact htruthy
+    obtain ⟨n, t, c, hf⟩ := hs hk
+    unfold licenseParaIsEmpty at hempty
+    simp only [Bool.and_eq_true, Bool.not_eq_true'] at hempty
+    obtain ⟨⟨⟨hex, hcom⟩, _⟩, _⟩ := hempty
+    have hex' : q.extra = [] := List.isEmpty_iff.mp hex
+    obtain ⟨_, hct⟩ := licenseOf_shape q n t c hf
+    rw [hct] at hcom
+    have hf' := setLicense_shape q n t c tx hf
+    have hcomd : dumps (FV.formatted c) = [] := by
+      rcases optTruthy_false c hcom with rfl | rfl <;> rfl
+    refine ⟨c, ?_, htne, hf'⟩
+    rw [toDict_eq]
+    have hex'' : ({ setLicense q [] (some tx) with lines := lset q.lines "license".toList r } : Para).extra = [] := by
+      simp only [setLicense]; exact hex'
+    rw [hex'']
+    simp only [List.foldl_nil]
+    show ((setLicense q [] (some tx)).fields.map fun nf => ((nf.1, XV.s (dumps nf.2)) : Str × DV)) = _
+    rw [hf']
+    simp only [List.map_cons, List.map_nil, hcomd]
+  obtain ⟨c, hdA, htA, hfA⟩ := shape p1 p2 text rng h1.shapeA hc hd
+  obtain ⟨c', hdB, htB, hfB⟩ := shape p1' p2' text' rng' h1.shapeB hc' hd'
+  have hwt : words text = words text' := by
+    have := h2.dict
+    rw [hd, hd'] at this
+    cases this with
+    | cons hab _ => exact hab.2
+  have hk1 : p1.kind = .license := by
+    unfold foldCond at hc
+    simp only [Bool.and_eq_true, decide_eq_true_eq] at hc
+    exact hc.1.1.1.1
+  constructor
+  · show (setLicense p1 [] (some text)).kind = (setLicense p1' [] (some text')).kind
+    simp only [setLicense]; exact h1.kind
+  · rw [hdA, hdB]
+    refine All2.cons ⟨rfl, ?_⟩ (All2.cons ⟨rfl, ?_⟩ All2.nil)
+    · simp only [DVR, words_license_text]; exact hwt
+    · simp [DVR]
+  · exact lset_keys _ _ _ _ _ h1.lkeys
+  · intro _
+    -- a folded license has a text: not empty, in both runs
+    have ne : ∀ (q : Para) (tx : Str) (r : Nat × Nat) (cc : Option Str), tx ≠ [] →
+        (setLicense q [] (some tx)).fields = [(licKey, FV.license [] (some tx)), (comKey, FV.formatted cc)] →
+        licenseParaIsEmpty ({ setLicense q [] (some tx) with lines := lset q.lines "license".toList r } : Para) = false := by
+      intro q tx r cc htx hf
+      have hlo := (licenseOf_shape ({ setLicense q [] (some tx) with lines := lset q.lines "license".toList r } : Para)
+        [] (some tx) cc (by exact hf)).1
+      unfold licenseParaIsEmpty
+      rw [hlo]
+      have : tx.isEmpty = false := by cases hh : tx with | nil => exact absurd hh htx | cons _ _ => rfl
+      simp [optTruthy, this]
+    rw [ne p1 text rng c htA hfA, ne p1' text' rng' c' htB hfB]
+  · intro _; exact ⟨_, _, _, hfA⟩
+  · intro _; exact ⟨_, _, _, hfB⟩
+  · intro hk
+    have : (setLicense p1 [] (some text)).kind = p1.kind := by simp [setLicense]
+    have hk' : p1.kind = .catchall := by rw [← this]; exact hk
+    rw [hk1] at hk'; cases hk'
+
+theorem lookup_isSome_keys {α β} (l : List (Str × α)) (l' : List (Str × β)) (k : Str) (h : l.map (·.1) = l'.map (·.1)) :
+    (l.lookup k).isSome = (l'.lookup k).isSome := by
+  induction l generalizing l' with
+  | nil =>
+    cases l' with
+    | nil => rfl
+    | cons _ _ => simp at h
+  | cons a as ih =>
+    cases l' with
+    | nil => simp at h
+    | cons b bs =>
+      obtain ⟨a1, a2⟩ := a
+      obtain ⟨b1, b2⟩ := b
+      simp only [List.map_cons, List.cons.injEq] at h
+      obtain ⟨hk, hr⟩ := h
+      subst hk
+      by_cases e : k = a1
+      · subst e; simp [List.lookup]
+      · have : (k == a1) = false := by simpa using e
+        simp only [List.lookup, this]
+        exact ih bs hr
+
+open Props.C07 Props.C11W in
+theorem foldLoop_rel (psA psB : List Para) (h : All2 PRel psA psB) (b : Bool) (outA : List Para) (fp : Bool)
+    (hA : foldLoop psA b = .ok (outA, fp)) : ∃ outB, foldLoop psB b = .ok (outB, fp) ∧ All2 PRel outA outB := by
+  induction h generalizing b outA fp with
+  | nil =>
+    simp only [foldLoop, Except.ok.injEq, Prod.mk.injEq] at hA
+    obtain ⟨rfl, rfl⟩ := hA
+    exact ⟨[], rfl, All2.nil⟩
+  | @cons p1 p1' rest rest' h1 hrest ih =>
+    cases hrest with
+    | nil =>
+      simp only [foldLoop, Except.ok.injEq, Prod.mk.injEq] at hA
+      obtain ⟨rfl, rfl⟩ := hA
+      exact ⟨[], rfl, All2.nil⟩
+    | @cons p2 p2' r r' h2 hr =>
+      rw [foldLoop_unfold] at hA ⊢
+      by_cases hb : b = true
+      · subst hb
+        simp only [if_true] at hA ⊢
+        exact ih false outA fp hA
+      · have hb' : b = false := by simpa using hb
+        subst hb'
+        simp only [Bool.false_eq_true, if_false] at hA ⊢
+        rw [← foldCond_rel p1 p1' p2 p2' h1 h2]
+        by_cases hc : foldCond p1 p2 = true
+        · simp only [hc, if_true] at hA ⊢
+          cases hd : toDict p2 with
+          | nil => rw [hd] at hA; simp at hA
+          | cons kv kvs =>
+            cases kvs with
+            | cons _ _ => rw [hd] at hA; simp at hA
+            | nil =>
+              obtain ⟨k, dv⟩ := kv
+              cases dv with
+              | emptyList => rw [hd] at hA; simp at hA
+              | s text =>
+                cases hl : p2.lines.lookup unknownName with
+                | none => rw [hd, hl] at hA; simp at hA
+                | some rng =>
+                  rw [hd, hl] at hA
+                  simp only at hA
+                  cases hrec : foldLoop (p2 :: r) true with
+                  | error e => rw [hrec] at hA; simp at hA
+                  | ok res =>
+                    obtain ⟨out2, fp2⟩ := res
+                    rw [hrec] at hA
+                    simp only [Except.ok.injEq, Prod.mk.injEq] at hA
+                    obtain ⟨rfl, rfl⟩ := hA
+                    obtain ⟨outB2, hB2, hrel2⟩ := ih true out2 fp2 hrec
+                    -- the second paragraph of the other run has the same shape
+                    have hk : k = unknownName := by
+                      have hc' := hc
+                      rw [foldCond_eq] at hc'
+                      simp only [Bool.and_eq_true, decide_eq_true_eq] at hc'
+                      have := hc'.1.2
+                      rw [hd] at this
+                      simpa using this
+                    subst hk
+                    have hdB : ∃ text', toDict p2' = [(unknownName, XV.s text')] := by
+                      have := h2.dict
+                      rw [hd] at this
+                      generalize toDict p2' = dB at this
+                      cases this with
+                      | @cons a b as0 bs0 hab hr0 =>
+                        cases hr0 with
+                        | nil =>
+                          obtain ⟨b1, b2⟩ := b
+                          obtain ⟨hk1, hv⟩ := hab
+                          simp only at hk1
+                          subst hk1
+                          cases b2 with
+                          | s y => exact ⟨y, rfl⟩
+                          | emptyList => exact absurd hv (by simp [DVR])
+                    obtain ⟨text', hdB'⟩ := hdB
+                    have hlB : ∃ rng', p2'.lines.lookup unknownName = some rng' := by
+                      have := lookup_isSome_keys p2.lines p2'.lines unknownName h2.lkeys
+                      rw [hl] at this
+                      cases hh : p2'.lines.lookup unknownName with
+                      | none => rw [hh] at this; cases this
+                      | some r0 => exact ⟨r0, rfl⟩
+                    obtain ⟨rng', hlB'⟩ := hlB
+                    rw [hdB', hlB']
+                    simp only [hB2]
+                    exact ⟨_, rfl, All2.cons (fold_rel p1 p1' p2 p2' h1 h2 hc text text' rng rng' hd hdB') hrel2⟩
+        · have hc' : foldCond p1 p2 = false := by simpa using hc
+          simp only [hc', Bool.false_eq_true, if_false] at hA ⊢
+          cases hrec : foldLoop (p2 :: r) false with
+          | error e => rw [hrec] at hA; simp at hA
+          | ok res =>
+            obtain ⟨out2, fp2⟩ := res
+            rw [hrec] at hA
+            simp only [Except.ok.injEq, Prod.mk.injEq] at hA
+            obtain ⟨rfl, rfl⟩ := hA
+            obtain ⟨outB2, hB2, hrel2⟩ := ih false out2 fp2 hrec
+            simp only [hB2]
+            exact ⟨_, rfl, All2.cons h1 hrel2⟩
+
+theorem All2.getLast_rel {α β} {R : α → β → Prop} {as : List α} {bs : List β} (h : All2 R as bs) :
+    (as.getLast? = none ∧ bs.getLast? = none) ∨ ∃ a b, as.getLast? = some a ∧ bs.getLast? = some b ∧ R a b := by
+  induction h with
+  | nil => exact Or.inl ⟨rfl, rfl⟩
+  | @cons a b as0 bs0 hab hr ih =>
+    right
+    cases hr with
+    | nil => exact ⟨a, b, rfl, rfl, hab⟩
+    | @cons a2 b2 as1 bs1 h2 hr2 =>
+      rcases ih with ⟨h1, _⟩ | ⟨x, y, hx, hy, hxy⟩
+      · simp at h1
+      · exact ⟨x, y, by rw [List.getLast?_cons_cons]; exact hx, by rw [List.getLast?_cons_cons]; exact hy, hxy⟩
+
+theorem foldLicense_rel (psA psB : List Para) (h : All2 PRel psA psB) (resA : List Para) (hA : foldLicense psA = .ok resA) :
+    ∃ resB, foldLicense psB = .ok resB ∧ All2 PRel resA resB := by
+  unfold foldLicense at hA ⊢
+  have hlen : psB.length = psA.length := All2.len h
+  rw [hlen]
+  by_cases hl : psA.length ≤ 2
+  · simp only [hl, if_true, Except.ok.injEq] at hA ⊢
+    subst hA
+    exact ⟨psB, rfl, h⟩
+  · simp only [hl, if_false] at hA ⊢
+    cases hrec : foldLoop psA false with
+    | error e => rw [hrec] at hA; simp at hA
+    | ok res =>
+      obtain ⟨out, fp⟩ := res
+      rw [hrec] at hA
+      simp only at hA
+      obtain ⟨outB, hB, hrel⟩ := foldLoop_rel psA psB h false out fp hrec
+      rw [hB]
+      simp only
+      cases fp with
+      | true =>
+        simp only [if_true, Except.ok.injEq] at hA ⊢
+        subst hA
+        exact ⟨outB, rfl, hrel⟩
+      | false =>
+        simp only [Bool.false_eq_true, if_false] at hA ⊢
+        rcases All2.getLast_rel h with ⟨h1, h2⟩ | ⟨x, y, hx, hy, hxy⟩
+        · rw [h1] at hA; rw [h2]
+          simp only [Except.ok.injEq] at hA ⊢
+          subst hA
+          exact ⟨outB, rfl, hrel⟩
+        · rw [hx] at hA; rw [hy]
+          simp only [Except.ok.injEq] at hA ⊢
+          subst hA
+          exact ⟨_, rfl, All2.append hrel (All2.cons hxy All2.nil)⟩
+
 end Props.C12P
